@@ -29,6 +29,7 @@ ASSUMPTIONS = [
 ]
 
 FEAT = gen.feat(
+    p_self=0.15,
     bodies={"leaf": 3, "next": 4, "rec": 1.2, "fnext": 0.5, "next2": 1.0,
             "next_other": 0.4, "rec_next": 0.5},
     ann={"d": 1.2, "h": 0.9},
